@@ -65,6 +65,12 @@ def trait_call(I, st, trait, callee, argv, depth, t, dty):
     short = {KEGROUP: 'KeGroup', KSF: 'Ksf', SECRETKEY: 'SecretKey', VGROUP: 'Group'}[trait]
     key = '%s::%s' % (short, name)
     fa = tuple(freeze(st, a) for a in argv)
+    if trait == SECRETKEY:
+        # an externally held key is not a pure function: the n-th request may fail when the (n-1)-th did not (C18 quantifies over
+        # such fault sequences).  A repeated identical request on one path is therefore a *different* call with its own outcome.
+        n = sum(1 for e in st.events if e[0] == 'call' and e[1].split('#')[0] == key and e[2] == fa)
+        if n:
+            key = '%s#%d' % (key, n + 1)
     if I.honest and key == 'KeGroup::deserialize_pk' and fa[0][0] == 'app' and fa[0][1] == 'KeGroup::serialize_pk':
         st.ev('call', key, fa, span(t))
         yield st, Ok(fa[0][2][0])
